@@ -19,6 +19,7 @@ import (
 	"sort"
 	"strings"
 	"sync"
+	"sync/atomic"
 	"time"
 
 	"github.com/q191201771/lal/pkg/hls"
@@ -40,6 +41,7 @@ type c10Fsl struct {
 	inner  filesystemlayer.IFileSystemLayer
 	log    []string
 	closed map[string]bool
+	raDone int32 // RemoveAll calls that have returned (c10.sm waits for the delayed cleanup to be complete)
 }
 
 func (l *c10Fsl) add(s string) {
@@ -99,7 +101,9 @@ func (l *c10Fsl) Remove(name string) error {
 
 func (l *c10Fsl) RemoveAll(path string) error {
 	l.add("ra:"+path)
-	return l.inner.RemoveAll(path)
+	err := l.inner.RemoveAll(path)
+	atomic.AddInt32(&l.raDone, 1)
+	return err
 }
 
 func (l *c10Fsl) ReadFile(name string) ([]byte, error) {
